@@ -139,6 +139,10 @@ struct Recorder {
   size_t refuse_at = 0;  // 1-based index of the event the handler refuses (0 = never)
   // nested parsing: while handling an element the handler runs a complete second parse (what a handler does that resolves
   // an "include" option), then looks at the path and value it was called with again
+  // kept copies: the handler keeps buffer-sharing copies (mpt::path copy) of the paths it is given and looks at them after the parse
+  bool keep = false;
+  struct Kept { std::unique_ptr<mpt::path> copy; std::string bytes, post; int valid; size_t event; };
+  std::vector<Kept> kept;
   bool nest = false;
   size_t nested = 0;
   std::string nest_fault;
@@ -157,6 +161,15 @@ struct Recorder {
       if (vec->iov_base && vec->iov_len) e.val.assign((const char *)vec->iov_base, vec->iov_len);
     }
     r->ev.push_back(e);
+    if (r->keep && r->kept.size() < 8 && p->base && (p->flags & path::HasArray)) {
+      Kept k;
+      k.copy.reset(new mpt::path(*p));
+      k.bytes = e.path;
+      k.post = e.val;
+      k.valid = mpt_path_valid(k.copy.get());  // bytes stored behind the path (name being read / value)
+      k.event = r->ev.size();
+      r->kept.push_back(std::move(k));
+    }
     if (r->nest && r->nested < 6 && r->nest_fault.empty()) {
       const struct iovec *vec = v ? (const struct iovec *)v->_addr : 0;
       const char *base = p->base;
@@ -287,6 +300,7 @@ static void run_config(Ctx &c, const Fmt &f, Flags fl, const std::string &doc, l
   // a quarter of the cases (chosen by the text length: no draw, older cases keep their meaning) parse with a handler that
   // runs a nested parse at the first six elements
   rec.nest = doc.size() % 4 == 1;
+  rec.keep = doc.size() % 4 == 2;  // another quarter: the handler keeps copies of the first eight paths
   size_t line0 = pc->src.line;
   uint8_t prev0 = pc->prev;
   int r = mpt_parse_config(NextCtx::next, &nx, pc, Recorder::save, &rec);
@@ -294,6 +308,20 @@ static void run_config(Ctx &c, const Fmt &f, Flags fl, const std::string &doc, l
   check_getc(c, src, true);
   // a read error of the character source is never reported as success
   if (src.error_hit) { c.label("input:read-error-reached"); VP_CHECK(c, r < 0, "read-error-success", "the character source reported a read error at byte %ld, mpt_parse_config returned %d", error_at, r); }
+  if (rec.keep) {
+    // a copy the handler kept shares the buffer with the parser's path; what the parser does afterwards must not show in it
+    c.label("config:handler-keeps-path-copies");
+    for (auto &k : rec.kept) {
+      const mpt::path *cp = k.copy.get();
+      int valid = mpt_path_valid(k.copy.get());
+      bool same = cp->base && cp->len == k.bytes.size() && (!cp->len || !memcmp(cp->base + cp->off, k.bytes.data(), cp->len));
+      VP_CHECK(c, valid == k.valid, "kept-path-copy", "copy of the path of element %zu: %d bytes stored behind the path when the handler took it, %d after the parse", k.event, k.valid, valid);
+      VP_CHECK(c, same, "kept-path-copy", "copy of the path of element %zu no longer holds '%s'", k.event, brief(k.bytes, 60).c_str());
+      VP_CHECK(c, k.post.empty() || ((size_t)valid >= k.post.size() && !memcmp(cp->base + cp->off + cp->len, k.post.data(), k.post.size())), "kept-path-copy",
+               "copy of the path of element %zu no longer holds the value '%s' behind the path", k.event, brief(k.post, 60).c_str());
+    }
+    if (!rec.kept.empty()) c.label("config:path-copies-verified");
+  }
   if (rec.nest) {
     c.label("config:nested-parse-in-handler");
     VP_CHECK(c, rec.nest_fault.empty(), "nested-parse", "handler with a nested parse: %s", rec.nest_fault.c_str());
